@@ -546,7 +546,34 @@ pub fn buffered(spec: &crate::Spec) -> Report {
             }
             let mut attempts: Vec<Attempt> = got.iter().map(|g| Attempt { bytes: g.clone(), ok: true, fail_id: None }).collect();
             let r = match res {
-                Ok(n) => Res::Ok(n),
+                Ok(n) => {
+                    // a sink may send a datagram as soon as it is exactly full and, when the socket
+                    // refuses it, keep the bytes and still report the emit as accepted: such a refused
+                    // send shows only in the figures (one more dropped packet of exactly the capacity)
+                    if which != "spy" {
+                        if let Call::Emit(m) = &call {
+                            let mut line = m.bytes();
+                            line.push(b'\n');
+                            let mut full = model.concat(&model.pending);
+                            full.extend_from_slice(&line);
+                            // either everything held plus this line, or (room was made first) this line alone
+                            if !(full.len() == cap && got.is_empty()) {
+                                full = line;
+                            }
+                            let st = bs.sink().stats();
+                            if full.len() == cap
+                                && st.packets_dropped == tally.packets_dropped + 1
+                                && st.bytes_dropped == tally.bytes_dropped + cap as u64
+                            {
+                                tally.packets_dropped += 1;
+                                tally.bytes_dropped += cap as u64;
+                                attempts.push(Attempt { bytes: full, ok: false, fail_id: Some(1) });
+                                rep.flag("send-refused");
+                            }
+                        }
+                    }
+                    Res::Ok(n)
+                }
                 Err(e) if down => {
                     // the refused datagram cannot be observed; it is taken to be what a conforming
                     // writer would have attempted (the pending lines, or the oversize metric alone)
@@ -770,14 +797,28 @@ pub fn stats_faults(spec: &crate::Spec) -> Report {
                                 }
                             }
                             v
-                        } else if pending + need > cap as u64 {
-                            if server_up {
-                                vec![(vec![(pending, true)], need, false)]
-                            } else {
-                                vec![(vec![(pending, false)], pending, true)]
-                            }
                         } else {
-                            vec![(vec![], pending + need, false)]
+                            // buffered (after making room if necessary); a datagram that is now exactly
+                            // full may be sent at once - a failure of that send is not the emit's, the
+                            // bytes stay buffered - or kept until the next write needs the room
+                            let mut v: Vec<(Vec<(u64, bool)>, u64, bool)> = vec![];
+                            let (mut before, held): (Vec<(u64, bool)>, u64) = (vec![], pending);
+                            let mut held = held;
+                            if pending + need > cap as u64 {
+                                if !server_up {
+                                    return vec![(vec![(pending, false)], pending, true)];
+                                }
+                                before.push((pending, true));
+                                held = 0;
+                            }
+                            let full = held + need;
+                            v.push((before.clone(), full, false));
+                            if full == cap as u64 {
+                                let mut a = before.clone();
+                                a.push((full, server_up));
+                                v.push((a, if server_up { 0 } else { full }, false));
+                            }
+                            v
                         }
                     }
                 }
